@@ -347,6 +347,70 @@ def m5b(ctx):
                           'of `%s` is dropped, and == cannot see it because an empty namespace is '
                           'a wildcard' % (inst(f), sorted(srcs), o), c.loc)
     ctx.require(n >= 2, 'only %d two-operand treespec producers found (Compose, BroadcastToCommonSuffix)' % n)
+    # the same for producers that meet other treespecs on the way (Transform: the treespecs its
+    # callbacks return; the constructor: the child treespecs): every namespace that is read from
+    # another treespec flows - through the locals that reconcile them - into the result's namespace
+    m = 0
+    for f in live_funcs(prog):
+        if f.body is None or f.is_lambda or f.record != SPEC_REC:
+            continue
+        cr = [c for c in _spec_creations(prog, f) if not c[2]]
+        if not cr:
+            continue
+        foreign = set()
+        for x in f.body.walk():
+            if x.kind == 'MemberExpr' and x.name == 'm_namespace' and x.kids and x.kids[0] is not None and \
+                    x.kids[0].kind != 'CXXThisExpr':
+                p_ = member_path(x)
+                if p_ and not any(p_.startswith(h + '.') or p_.startswith(h + '->') for _, h, _ in cr if h):
+                    foreign.add(p_)
+        if not foreign:
+            continue
+        # what each string local can hold: initialiser and every assignment, transitively
+        holds = {}
+        for x in f.body.walk():
+            tgt = val = None
+            if x.kind == 'VarDecl' and x.name and x.kids and 'string' in (x.type or ''):
+                tgt, val = x.name, x.kids[-1]
+            elif x.kind == 'CXXOperatorCallExpr' and x.callee_name() == 'operator=' and len(x.kids) == 3:
+                tgt, val = member_path(x.kids[1]), x.kids[2]
+            elif x.kind == 'BinaryOperator' and x.op == '=' and len(x.kids) == 2:
+                tgt, val = member_path(x.kids[0]), x.kids[1]
+            if tgt and val is not None and '.' not in tgt:
+                for y in val.walk():
+                    q = member_path(y) if y.kind in ('MemberExpr', 'DeclRefExpr') else None
+                    if q:
+                        holds.setdefault(tgt, set()).add(q)
+
+        def closure(name, seen=None):
+            seen = seen or set()
+            out = set()
+            for q in holds.get(name, ()):
+                out.add(q)
+                if q in holds and q not in seen:
+                    out |= closure(q, seen | {name})
+            return out
+        for c, holder, _ in cr:
+            asg = _assign_nodes(f, holder, 'm_namespace')
+            if not asg:
+                continue
+            srcs = set()
+            for a, rhs in asg:
+                for y in rhs.walk():
+                    q = member_path(y) if y.kind in ('MemberExpr', 'DeclRefExpr') else None
+                    if q:
+                        srcs.add(q)
+                        srcs |= closure(q)
+            # the function's own namespace parameter counts as the caller's choice (constructors)
+            lost = sorted(q for q in foreign if q not in srcs)
+            m += 1
+            ctx.check('%s/namespace-of-every-treespec-met' % short(f), not lost,
+                      '%s: every namespace read from another treespec reaches the result\'s namespace' % inst(f),
+                      '%s reads %s but the result\'s namespace is assigned from %s only: the namespace of '
+                      'the treespecs met on the way is dropped, and == cannot see it because an empty '
+                      'namespace is a wildcard' % (inst(f), lost, sorted(x for x in srcs if 'namespace' in x)),
+                      c.loc)
+    ctx.analysed['namespace_merging_producers'] = m
 
 
 # ---------------------------------------------------------------------------------------------
@@ -629,6 +693,35 @@ def s1(ctx):
               'FromPickleable assigns `%s` from something other than the pickled state: the loaded '
               'treespec is not the pickled one (a later round trip can then fail or differ)'
               % (foreign[0].text(5)[:90] if foreign else ''), foreign[0].loc if foreign else rf.loc)
+    # the same for the two flags of the treespec: written from their state positions, then left
+    # alone (no clear(), no second assignment, no "only if a custom node was seen")
+    flag_writes = []
+    for n_ in rf.body.walk():
+        lhs = rhs = None
+        if n_.kind == 'BinaryOperator' and n_.op == '=':
+            lhs, rhs = n_.kids
+        elif n_.kind == 'CXXOperatorCallExpr' and n_.callee_name() in ('operator=', 'operator+=') and \
+                len(n_.kids) == 3:
+            lhs, rhs = n_.kids[1], n_.kids[2]
+        elif n_.kind == 'CXXMemberCallExpr' and n_.callee_name() in (
+                'clear', 'assign', 'append', 'erase', 'resize', 'swap', 'push_back', 'pop_back', 'insert',
+                'replace'):
+            b_ = n_.call_base()
+            if b_ is not None and b_.kind == 'MemberExpr' and b_.name in ('m_namespace', 'm_none_is_leaf'):
+                flag_writes.append((n_, b_.name, None))
+            continue
+        if lhs is not None and lhs.kind == 'MemberExpr' and lhs.name in ('m_namespace', 'm_none_is_leaf'):
+            flag_writes.append((n_, lhs.name, rhs))
+    # chained `out->m_namespace = registry_namespace = cast(state[2])`: the state read is below the chain
+    odd = [(n_, nm) for n_, nm, rhs in flag_writes if rhs is None or not _index_reads(rhs, svar)]
+    per_flag = {nm: sum(1 for _, x, _ in flag_writes if x == nm) for nm in ('m_namespace', 'm_none_is_leaf')}
+    ctx.check('FromPickleable/flags-only-from-state',
+              not odd and all(v == 1 for v in per_flag.values()),
+              'FromPickleable writes none_is_leaf and namespace once each, from their state positions',
+              'FromPickleable %s: the loaded treespec does not carry the flags that were pickled (== '
+              'cannot see a dropped namespace, repr and later lookups can)'
+              % ('changes `%s` with `%s`' % (odd[0][1], odd[0][0].text(4)[:70]) if odd else
+                 'writes the flags %s times' % per_flag), odd[0][0].loc if odd else rf.loc)
     # every position is written unconditionally: the only condition allowed around a value is
     # the null test of that very value (`x ? x : None`)
     for label, call in (('node', wc), ('state', wsc)):
